@@ -5,8 +5,9 @@
 (* milliseconds, GPS/Galileo weeks start 18 s, BeiDou weeks 4 s before     *)
 (* Sunday 00:00 UTC, GLONASS weeks 3 h before (Moscow time).               *)
 (* Instants are integers: ms since the base Sunday 00:00 UTC, which is one *)
-(* week before the UTC week of the start time (sessions stay below 2^31 ms *)
-(* = 3.55 weeks); in the trace they are pairs <<week, ms in week>>.        *)
+(* week before the UTC week of the start time; in the trace and in the L0   *)
+(* part they are pairs <<week, ms in week>>, so sessions may span any number *)
+(* of weeks (the integer L1 model is followed for the first three).         *)
 (*                                                                         *)
 (*   [ev |-> "new", T]                          handler created at T       *)
 (*   [ev |-> "obs", c, ts, u, err, sent, sow]   legal MSM observed at u    *)
@@ -32,34 +33,50 @@ vars == <<l, T, last, live, pre06, h, insync, bad>>
 NoBad == [c06 |-> <<>>, c17 |-> <<>>, driver |-> <<>>, drift |-> <<>>]
 Add(b, key, ok) == IF ok \/ Len(b[key]) >= MaxBad THEN b ELSE [b EXCEPT ![key] = Append(@, l)]
 
+\* ---- L0 in pair arithmetic: an instant is <<UTC week index, ms in that week>>; nothing exceeds 2^31, so a session
+\* ---- may span any number of weeks.  (The L1 model below works on plain integers and is only followed for the
+\* ---- first three weeks of a session.)
+Off(c) == RealOff[c]                                   \* negative: the constellation week starts |Off| ms before Sunday 00:00 UTC
+CWeek(c, p) == IF p[2] - Off(c) >= RW THEN p[1] + 1 ELSE p[1]        \* index of the constellation week containing p
+CIn(c, p) == (p[2] - Off(c)) % RW                                    \* ms into that constellation week
+WeekStartP(c, p) == << CWeek(c, p) - 1, RW + Off(c) >>               \* its start as a UTC pair
+TsOfP(c, p) == IF c = "glonass" THEN (CIn(c, p) \div RD) * 134217728 + (CIn(c, p) % RD) ELSE CIn(c, p)
+LeP(p, q) == p[1] < q[1] \/ (p[1] = q[1] /\ p[2] <= q[2])
+\* q - p < six days (given LeP(p, q))
+WithinSixDays(p, q) == q[1] - p[1] <= 1 /\ (q[1] - p[1]) * RW + q[2] - p[2] < 6 * RD
+Small(p) == p[1] <= 2                                  \* instants the integer model can represent
+
 Inst(p) == p[1] * RW + p[2]
 Pair(x) == << x \div RW, x % RW >>
+NoneP == << -1, 0 >>
 
-Init == /\ l = 1 /\ T = 0 /\ last = [c \in TT!Cons |-> -1] /\ live = FALSE /\ pre06 = FALSE
+Init == /\ l = 1 /\ T = <<1, 0>> /\ last = [c \in TT!Cons |-> NoneP] /\ live = FALSE /\ pre06 = FALSE
         /\ h = TT!New(RW) /\ insync = FALSE /\ bad = NoBad
 
 OnNew(e) ==
-    /\ T' = Inst(e.T) /\ last' = [c \in TT!Cons |-> -1] /\ live' = TRUE /\ pre06' = TRUE
+    /\ T' = e.T /\ last' = [c \in TT!Cons |-> NoneP] /\ live' = TRUE /\ pre06' = TRUE
     /\ h' = TT!New(Inst(e.T)) /\ insync' = TRUE /\ UNCHANGED bad
 
 OnObs(e) ==
     LET c == e.c
-        u == Inst(e.u)
-        tsok == e.ts = TT!TsOf(c, u)
-        pre == IF last[c] = -1 THEN TT!WeekStart(c, u) = TT!WeekStart(c, T)
-               ELSE u >= last[c] /\ u - last[c] < 6 * RD
-        first06 == last[c] = -1 => u >= T
-        good == e.err = "" /\ e.sent = Pair(u) /\ e.sow = Pair(TT!WeekStart(c, u))
+        u == e.u
+        tsok == e.ts = TsOfP(c, u)
+        first == last[c] = NoneP
+        pre == IF first THEN CWeek(c, u) = CWeek(c, T)
+               ELSE LeP(last[c], u) /\ WithinSixDays(last[c], u)
+        first06 == first => LeP(T, u)
+        good == e.err = "" /\ e.sent = u /\ e.sow = WeekStartP(c, u)
         lv == live /\ pre /\ tsok
         p6 == pre06 /\ first06
+        follow == insync /\ Small(u)
         r == TT!Convert(h, c, e.ts)
         l1ok == (r.err = (e.err # "")) /\ (~r.err => e.sent = Pair(r.time) /\ e.sow = Pair(r.sow))
     IN /\ bad' = Add(Add(Add(Add(bad, "driver", tsok), "c17", ~lv \/ good), "c06", ~(lv /\ p6) \/ good),
-                     "drift", ~insync \/ l1ok)
+                     "drift", ~follow \/ l1ok)
        /\ live' = lv /\ pre06' = p6
        /\ last' = [last EXCEPT ![c] = u]
-       /\ insync' = (insync /\ l1ok)
-       /\ h' = IF insync /\ l1ok THEN r.h ELSE h
+       /\ insync' = (follow /\ l1ok)
+       /\ h' = IF follow /\ l1ok THEN r.h ELSE h
        /\ UNCHANGED T
 
 OnBad(e) ==
